@@ -1163,8 +1163,8 @@ def round_plan(ctx):
     if getattr(ctx, "only", None) and "fixedrounds" in ctx.only:
         return {"size": 500, "min": 4, "max": 4, "deadline": None, "flag": flag}
     if ctx.quick:
-        return {"size": 400, "min": 3, "max": 60, "deadline": ctx.t0 + 68, "flag": flag}
-    return {"size": 2000, "min": 4, "max": 400, "deadline": ctx.t0 + 15 * 60, "flag": flag}
+        return {"size": 400, "min": 3, "max": 60, "deadline": ctx.t0 + 68, "flag": flag, "shrink": 20}
+    return {"size": 2000, "min": 4, "max": 400, "deadline": ctx.t0 + 15 * 60, "flag": flag, "shrink": 120}
 
 
 def raise_flag(plan):
@@ -1180,12 +1180,28 @@ def flag_up(plan):
 
 def search_rounds(strategy, runfn, seed, stats, plan):
     rounds = 0
+    fail = {"t": None, "seen": {}}
+
+    def bounded(sc, stats):
+        """runfn with a bounded shrink phase: once the first failure is `shrink` seconds old, scenarios that were seen failing keep
+        failing (from the cache, so Hypothesis' final replay of its minimal example is consistent) and new ones are not executed."""
+        key = vlib.digest(sc)
+        if fail["t"] is not None and time.time() - fail["t"] > plan.get("shrink", 20):
+            return fail["seen"].get(key)
+        msg = runfn(sc, stats)
+        if msg:
+            if fail["t"] is None:
+                fail["t"] = time.time()
+                raise_flag(plan)
+            fail["seen"][key] = msg
+        return msg
+
     for rnd in range(plan["max"]):
         if rnd >= plan["min"] and (plan["deadline"] is None or time.time() >= plan["deadline"]):
             break
         if flag_up(plan):
             break
-        vlib.hyp_search(strategy, runfn, plan["size"], vlib.subseed(seed, "round", rnd), stats)
+        vlib.hyp_search(strategy, bounded, plan["size"], vlib.subseed(seed, "round", rnd), stats)
         rounds += 1
         if stats.violations:
             raise_flag(plan)
